@@ -375,6 +375,9 @@ Keys7 == {I1, D1, SA, TA, EN, FN, BT}     \* one or two representatives of every
    "arrtyped" positions of derived integer types / non-integers; "mergeopts" the options map of map:merge
    "lookupseq" the lookup operator with a SEQUENCE of maps / arrays on the left, every key specifier form
    "batch"    functions and lookups applied directly to constructor expressions, once per binding of $x
+   "forms"    every function / dynamic call in every CALL FORM (static call, F#n, let-bound, partial application,
+              arrow operator, fn:apply, fn:for-each, lookup) on maps / arrays whose values / members are the
+              empty sequence, single items and sequences of several items
    "selftest" the in-place variant (InPlace = TRUE) that TLC must reject
    Lite = TRUE shrinks the parameter sets for histories of length 2 and 3. *)
 MapSeedsVals ==
@@ -411,6 +414,15 @@ LookupSeqSeeds ==
    S3([m |-> <<[k |-> I1, v |-> <<SA>>], [k |-> I2, v |-> <<>>]>>], [r |-> <<<<I1>>, <<I2>>>>], [r |-> <<<<SA>>, <<>>, <<I3>>>>]),
    S3([r |-> <<<<I1>>, <<I2>>, <<I3>>>>], [m |-> <<[k |-> I2, v |-> <<I1, I1>>]>>], [r |-> <<>>])}
 
+(* "forms": a map (handle 1) and an array (handle 2) whose values / members are the EMPTY sequence, single items,
+   sequences of SEVERAL items, nested maps and arrays *)
+FormSeeds ==
+  {S2(M3(I1, V12, SA, VE, EN, V1), Ar(<<V12, VE, V1>>)),                     \* map{1:(1,2), 'a':(), NaN:1}   [(1,2), (), 1]
+   S2(M2(SA, VM, I2, <<I1, I2, I3>>), Ar(<<<<I1, I2, I3>>, VA, VM>>)),       \* map{'a':map{1:2}, 2:(1,2,3)}   [(1,2,3), [1,()], map{1:2}]
+   S2(M1(D1, VE), Ar(<<VE>>)),                                               \* map{1.0:()}                    [()]
+   S2(M2(I3, <<SA, I1, NestedArr>>, I0, V2), Ar(<<V2, <<SA, SB>>>>)),        \* map{3:('a',1,[1,()]), 0:2}     [2, ('a','b')]
+   S2(M0, EmptyArr)}
+
 Seeds ==
   CASE Profile = "keys"     -> {S1(M0)} \cup {S1(M1(k, V1)) : k \in KeysExt}
     [] Profile = "keys13"   -> {S1(M0)} \cup {S1(M1(k, V1)) : k \in Keys13}
@@ -421,6 +433,7 @@ Seeds ==
     [] Profile = "keysl"    -> {S1(M1(k, V1)) : k \in KeysLZ}
     [] Profile = "mergel"   -> {S2(M1(pr[1], V1), M1(pr[2], V2)) : pr \in {x \in KeysLZ \X KeysLZ : RelatedKeys(x[1], x[2])}}
     [] Profile = "lookupseq" -> LookupSeqSeeds
+    [] Profile = "forms"    -> FormSeeds
     [] Profile = "arrtyped" -> {S2(Ar(<<V1, V2, V12>>), Ar(<<VE>>))}
     [] Profile = "mergeopts" -> {S2(M2(SA, V1, SB, V2), M2(SB, V12, I1, VE)), S2(M1(I1, V1), M1(D1, V2)), S2(M1(SA, V1), M1(SB, V2))}
     [] Profile = "merge"    -> {S2(M1(k1, V1), M1(k2, V2)) : k1, k2 \in KeysExt}
@@ -436,7 +449,7 @@ Seeds ==
                                      ELSE {S2(M1(EN, V12), Ar(<<VE, V12, VA>>)), S2(M2(D1, VM, TA, VE), EmptyArr)})
     [] Profile = "mixed1"   -> {S2(M1(I1, VA), Ar(<<V1, VM>>))}
     [] Profile = "selftest" -> {S1(Ar(<<V1, V2>>))}
-NSeed == CASE Profile \in {"merge", "merge13", "mergex", "mergel", "deq", "mixed", "mixed1", "arrtyped", "mergeopts"} -> 2
+NSeed == CASE Profile \in {"merge", "merge13", "mergex", "mergel", "deq", "mixed", "mixed1", "arrtyped", "mergeopts", "forms"} -> 2
            [] Profile \in {"cons", "batch"} -> 0 [] Profile = "lookupseq" -> 3 [] OTHER -> 1
 
 MapActs == {"MapPut", "MapRemove", "MapGet", "MapContains", "MapSize", "MapKeys", "MapFind", "MapForEach",
@@ -450,6 +463,7 @@ Acts ==
     [] Profile = "keysl"    -> {"MapPut", "MapRemove", "MapGet", "MapContains", "MapSize", "MapKeys", "MapFind", "Lookup",
                                 "MapEntry", "MapForEach"}
     [] Profile = "lookupseq" -> {"LookupSeq"}
+    [] Profile = "forms"    -> {"Form"}
     [] Profile = "arrtyped" -> {"ArrTyped"}
     [] Profile = "mergeopts" -> {"MapMergeOpt"}
     [] Profile = "mapvals"  -> MapActs
@@ -645,6 +659,93 @@ BatchResult(act, tmpl, p, xs) ==
        THEN [v |-> <<Ar([i \in 1..Len(xs) |-> rs[i].v])>>, bag |-> "inner"]   \* order inside a member is free
        ELSE Val(<<Ar([i \in 1..Len(xs) |-> rs[i].v])>>)
 Batch(act, tmpl, p, xs) == On("Batch") /\ Do(BatchResult(act, tmpl, p, xs))
+(* CALL FORMS.  The value of a function call depends on the function and on the argument values only, NOT on
+   the way the call is written.  A call is (name, fnitem, cargs): a map: / array: function of the library
+   applied to the argument list cargs, or ("Call") the map / array item fnitem itself applied to <<key>>
+   (XPath 3.1 3.11.3: maps and arrays are functions of arity 1).  Forms, each with its definitional expansion:
+     direct         F(A1, ..., An)                          3.1.5  static function call      /  $h(K) dynamic call
+     ref            F#n(A1, ..., An)                        3.1.6  named function reference, 3.2.2 dynamic call
+     let            let $f := F#n return $f(A1, ..., An)    the function item travels through a variable
+     partial-first  F(?, A2, ..., An)(A1)                   3.2.2 / 3.1.5.1 partial function application: "the
+     partial-rest   F(A1, ?, ..., ?)(A2, ..., An)           result is a function whose parameters are the
+     partial-all    F(?, ..., ?)(A1, ..., An)               placeholders, in order; the fixed arguments are kept"
+     arrow          A1 => F(A2, ..., An)                    3.16   "E => F(A, B) is F(E, A, B)"
+     apply          fn:apply(F#n, [A1, ..., An])            F&O 16.2.7 fn:apply: the members of the array are the arguments
+     for-each       fn:for-each(A1, F(?, A2, ..., An))      F&O 16.2.1: for $x in A1 return $f($x)   (A1 one item)
+     array-for-each array:for-each([A1], F(?, A2, ..))?*    F&O 17.3.12: the array of the results $f(member); its one member is
+                                                            the result, whatever its length (A1 may be any sequence)
+     lookup         $h?(K)     ulookup   $h ! ?(K)          3.11.3 postfix / unary lookup = the dynamic call $h(K)
+   Bound(form, cargs) is the argument list that the function finally RECEIVES under the form; FormLaw (decided by
+   TLC) says it is cargs for every form, i.e. FormResult does not depend on the form.  The binding spells every
+   form in XPath 3.1 and the code must return the same value - for members / values that are empty sequences
+   and sequences of several items as well as singletons. *)
+Forms == {"direct", "ref", "let", "partial-first", "partial-rest", "partial-all", "arrow", "apply", "for-each",
+          "array-for-each", "lookup", "ulookup"}
+FormApplies(form, name, n) ==
+  IF name = "Call" THEN form \in {"direct", "let", "partial-first", "arrow", "apply", "for-each", "array-for-each", "lookup", "ulookup"}
+  ELSE /\ form \in Forms \ {"lookup", "ulookup"}
+       /\ (form \in {"partial-rest", "partial-all"} => n >= 2)           \* arity 1: partial-first is all there is
+       /\ (form = "for-each" => name \notin {"MapMerge", "ArrJoin"})     \* A1 is a sequence there: one call per item
+Holes(form, n) == CASE form \in {"partial-first", "for-each", "array-for-each"} -> {1}
+                    [] form = "partial-rest" -> 2..n
+                    [] form = "partial-all"  -> 1..n
+                    [] OTHER -> {}
+Bound(form, cargs) ==
+  LET n        == Len(cargs)
+      holes    == Holes(form, n)
+      rank(i)  == Cardinality({x \in holes : x <= i})
+      fixed    == [i \in (1..n) \ holes |-> cargs[i]]                                    \* evaluated where the partial application is
+      supplied == [j \in 1..Cardinality(holes) |-> cargs[CHOOSE i \in holes : rank(i) = j]]  \* the arguments of the later call
+  IN CASE holes # {}       -> [i \in 1..n |-> IF i \in holes THEN supplied[rank(i)] ELSE fixed[i]]
+       [] form = "arrow"   -> <<Head(cargs)>> \o Tail(cargs)
+       [] form = "apply"   -> Ar(cargs).r
+       [] OTHER            -> cargs
+(* functions whose first argument is not one map / array item, in addition to OpResult *)
+FnResult(name, cargs) ==
+  CASE name = "MapEntry" -> Val(<<M1(cargs[1], cargs[2])>>)
+    [] name = "MapMerge" -> (CHOOSE r \in MergeResults(cargs[1], IF Len(cargs) = 1 THEN "default" ELSE cargs[2]) : TRUE)   \* deterministic policies only
+    [] name = "ArrJoin"  -> AJoin(cargs[1])
+    [] OTHER             -> OpResult(name, cargs[1], Tail(cargs))
+Invoke(name, fnitem, cargs) == IF name = "Call" THEN LookupItem(fnitem, <<"paren", cargs[1]>>) ELSE FnResult(name, cargs)
+FormResult(form, name, fnitem, cargs) == Invoke(name, fnitem, Bound(form, cargs))
+(* the grid: <<name, handles, parameters>>; handle 1 is the map, handle 2 the array of the seed *)
+FormCalls ==
+  {<<a, <<1>>, <<k>>>> : a \in {"MapGet", "MapContains"}, k \in {I1, SA, EN, I2}}
+  \cup {<<"MapFind", <<1>>, <<k>>>> : k \in {I1, SA}}
+  \cup {<<"MapPut", <<1>>, <<k, v>>>> : k \in {I1, SB}, v \in {VE, V12, VA}}
+  \cup {<<"MapRemove", <<1>>, <<ks>>>> : ks \in {<<>>, <<I1>>, <<SA, I1>>}}
+  \cup {<<a, <<1>>, <<>>>> : a \in {"MapSize", "MapKeys"}}
+  \cup {<<"MapForEachA", <<1>>, <<f>>>> : f \in {"entry", "kc"}}
+  \cup {<<"MapEntry", <<>>, <<k, v>>>> : k \in {SA, EN}, v \in {VE, V12, VA}}
+  \cup {<<"MapMerge", hs, p>> : hs \in {<<1>>, <<1, 1>>}, p \in {<<>>, <<"use-last">>, <<"reject">>}}
+  \cup {<<"Call", <<h>>, <<k>>>> : h \in 1..2, k \in {I0, I1, I2, I3}} \cup {<<"Call", <<1>>, <<k>>>> : k \in {SA, EN}}
+  \cup {<<"ArrGet", <<2>>, <<i>>>> : i \in 0..4}
+  \cup {<<a, <<2>>, <<i, v>>>> : a \in {"ArrPut", "ArrInsertBefore"}, i \in {0, 1, 3, 4}, v \in {VE, V12}}
+  \cup {<<"ArrAppend", <<2>>, <<v>>>> : v \in {VE, V12, VA}}
+  \cup {<<"ArrSubarray2", <<2>>, <<i>>>> : i \in {0, 1, 2, 4}}
+  \cup {<<"ArrSubarray3", <<2>>, sl>> : sl \in {<<1, 0>>, <<1, 2>>, <<2, 1>>, <<2, Neg1>>, <<4, 0>>}}
+  \cup {<<"ArrRemove", <<2>>, <<ps>>>> : ps \in {<<>>, <<1>>, <<2, 1>>, <<4>>}}
+  \cup {<<a, <<2>>, <<>>>> : a \in {"ArrHead", "ArrTail", "ArrReverse", "ArrFlatten", "ArrSize"}}
+  \cup {<<"ArrForEach", <<2>>, <<f>>>> : f \in {"count", "dup", "wrap"}}
+  \cup {<<"ArrFilter", <<2>>, <<f>>>> : f \in ArrPreds}
+  \cup {<<"ArrFold", <<2>>, <<f>>>> : f \in {"cat", "cnt", "last", "rcat", "rlast"}}
+  \cup {<<"ArrJoin", hs, <<>>>> : hs \in {<<2>>, <<2, 2>>}}
+FormArgsOf(name, hs, p) == CASE name \in {"MapMerge", "ArrJoin"} -> <<[i \in 1..Len(hs) |-> MV(hs[i])]>> \o p
+                             [] name \in {"MapEntry", "Call"}    -> p
+                             [] OTHER                            -> <<MV(hs[1])>> \o p
+FnItemOf(name, hs) == IF name = "Call" THEN MV(hs[1]) ELSE EmptyMap
+Form(form, name, hs, p) ==
+  /\ On("Form") /\ (\A i \in 1..Len(hs) : hs[i] \in MapHs \cup ArrHs)
+  /\ FormApplies(form, name, Len(FormArgsOf(name, hs, p)))
+  /\ Do(FormResult(form, name, FnItemOf(name, hs), FormArgsOf(name, hs, p)))
+(* THE LAW OF THE CALL FORMS: for every call of the grid, on the maps / arrays of the state, every applicable
+   form gives the result of the static call *)
+FormLaw == \A c \in FormCalls : \A f \in Forms :
+  LET cargs == FormArgsOf(c[1], c[2], c[3]) IN
+  FormApplies(f, c[1], Len(cargs)) =>
+     /\ Bound(f, cargs) = cargs
+     /\ FormResult(f, c[1], FnItemOf(c[1], c[2]), cargs) = FormResult("direct", c[1], FnItemOf(c[1], c[2]), cargs)
+
 DeepEqual(h1, h2)  == On("DeepEqual") /\ h1 \in ValHs /\ h2 \in ValHs /\ Do(Val(<<Bool(DeepEq(store[h1].v, store[h2].v))>>))
 
 (* the bound sets of Next are state-independent (TLC then labels every edge with the action and
@@ -707,6 +808,7 @@ Next ==
      \/ \E t \in ArrTmpls, f \in {"count", "dup", "wrap"}, xs \in BatchXs : Batch("ArrForEach", t, <<f>>, xs)
      \/ \E t \in ArrTmpls, f \in {"nonempty", "single"}, xs \in BatchXs : Batch("ArrFilter", t, <<f>>, xs)
      \/ \E t \in ArrTmpls, f \in {"cat", "cnt", "last", "rcat", "rlast"}, xs \in BatchXs : Batch("ArrFold", t, <<f>>, xs)
+     \/ \E f \in Forms, c \in FormCalls : Form(f, c[1], c[2], c[3])
 
 Init == store \in Seeds
 Spec == Init /\ [][Next]_vars
@@ -909,4 +1011,5 @@ Expanded == Len(store) - NSeed < Depth
 Laws == /\ WellFormed /\ DeepEqLaws
         /\ (Expanded /\ Profile # "deq") => PairLaws /\ ArrLaws
         /\ (Expanded /\ Profile \notin {"deq", "merge", "merge13", "mergex", "mergel", "lookupseq", "arrtyped"}) => MapLaws   \* single-entry maps: see the keys profiles
+        /\ (Expanded /\ Profile = "forms") => FormLaw
 =============================================================================
